@@ -91,9 +91,52 @@ def generate(rng, tier, focus):
         gid[0] += 1
         return gid[0]
     cases += C14.retry_twice_cases(rng, 600 if thorough else 120, group)
+    # (g) recovery over a SHARED hot source (ref_count over a subject): the error reaches retry / retry_when / on_error_resume_next
+    # through the sharing subject's error notification, and the resubscription is made from INSIDE that notification - it
+    # must stick: what the source emits afterwards reaches the subscriber
+    for _ in range(1500 if thorough else 250):
+        nerr = rng.choice([1, 1, 2])
+        how = rng.choice(["retry", "retry", "retry_when", "resume"])
+        if how == "retry":
+            p = op("retry", [rng.choice([nerr + 1, nerr + 2, 0])], ["conn", 0])      # (retry(n): n attempts in all, 0 = unbounded)
+        elif how == "retry_when":
+            p = op("retry_when", [["always"]], ["conn", 0])
+        else:
+            nerr = 1
+            p = op("on_error_resume_next", [], ["conn", 0], ["conn", 0])
+        p = scen.rand_chain(rng, p, rng.choice([0, 0, 1]), names=["map", "tap", "filter"])
+        acts, want = [sub(0, p)], []
+        val = [10]
+
+        def items():
+            out = []
+            for _ in range(rng.randrange(0, 3)):
+                val[0] += 1
+                out.append(val[0])
+            return out
+        for _ in range(nerr):
+            xs = items()
+            acts += [["emit", 0, n(x)] for x in xs] + [["emit", 0, e(rng.choice([1, 2, 3]))]]
+            want += xs
+        xs = items()
+        end = rng.choice([C, C, None])
+        acts += [["emit", 0, n(x)] for x in xs] + ([["emit", 0, end]] if end else [])
+        want += xs
+        plain = "map" not in sx.dumps(p) and "filter" not in sx.dumps(p)
+        cases.append((scn(subjects=[["subject"]], conns=[["refcount", ["hot", 0]]], handles=1, script_=acts),
+                      {"k": "recover-shared-hot", "want": [str(x) for x in want] if plain else None, "end": end is not None}))
     return cases
 
 
 def judge_impl(cases, obs):
     import C14
-    return C14.judge_impl(cases, obs)
+    out = C14.judge_impl(cases, obs)
+    for i, ((sc, info), ob) in enumerate(zip(cases, obs)):
+        if info.get("k") != "recover-shared-hot" or info.get("want") is None or ob["out"] != "ok":
+            continue
+        got = [str(x[2][1]) for x in ob["log"] if x[0] == "t0" and x[2][0] == "n"]
+        terms = [x[2][0] for x in ob["log"] if x[0] == "t0" and x[2][0] != "n"]
+        if got != info["want"] or terms != (["c"] if info["end"] else []):
+            out.append((i, "recovery over a shared hot source: the subscriber received items %s terminals %s, the source emitted %s%s around errors that the recovery operator absorbs" % (
+                got, terms, info["want"], " then complete" if info["end"] else "")))
+    return out
